@@ -66,7 +66,7 @@ def items(tier: str, seed: int) -> List[dict]:
     q1 = scen.mk_spec([scen.board(seed + 1, 'doubled', D4[(seed + 1) % 4], V4[(seed + 1) % 4], policy='lowest_held')])
     pq = scen.mk_spec([scen.board(seed, 'passout', 'S', 'NS'), scen.board(seed + 2, 'second', 'W', 'EW')])
     if tier == 'quick':
-        its += [dict(spec=p1, d=1, priority=True, inner=True), dict(spec=q1, d=1, priority=True, inner=True)]
+        its += [dict(spec=p1, d=1, priority=True, inner=True), dict(spec=q1, d=1, priority=True, inner=True), dict(spec=pq, d=1, priority=True, inner=True)]
     else:
         its += [dict(spec=p1, d=2, priority=True, inner=True), dict(spec=q1, d=1, priority=True, inner=True),
                 dict(spec=pq, d=1, priority=True, inner=True)]
